@@ -254,6 +254,21 @@ def check(F, rep, tier):
     core.borrow(F, rep, "c05", "C05", "R17.7", ("override-depends-on-value:bumped_timestamp",), "--bumped-timestamp is applied whenever it is given (0 = the epoch included)")
     core.borrow(F, rep, "c02", "C02", "R17.7", ("error-swallowed:get_commit_timestamp", "error-swallowed:get_tag_timestamp"), "a commit time git could not report is an error, not the epoch")
     core.borrow(F, rep, "c06", "C06", "R17.7", ("R06.7:tiers-not-isomorphic", "R06.7:tier-"), "the smart calver presets pick the calver schema of the tier (calendar fields are part of every tier)")
+    naive_datetime_rule(F, rep, "R17.9")
+    core.borrow(F, rep, "c14", "C14", "R17.7", ("R14.1:clock-",), "the wall clock replaces the commit time only for a dirty work tree (a commit time ahead of the local clock is still the commit time)")
+    # ---- R17.10 the VCS override flags take their numbers as written: no custom value parser re-reads a Unix time as something else ------
+    cgl = mir.CallGraph(F)
+    custom = set()
+    for p_ in F.fns:
+        if "clap::Args>::augment_args" in p_ and "crate::cli::common::overrides" in p_:
+            custom |= {x for x in (cgl.addr.get(p_, set()) | cgl.edges.get(p_, set())) if x.startswith("crate::") and F.fn(x) is not None and "::_::" not in x}
+    for x in sorted(custom):
+        g_ = F.fn(x)
+        inner = [mir.callee(t) or "" for h in [g_] + F.children(x) for bi, t in h.calls()]
+        datey = sorted({c.rsplit("::", 2)[-2] + "::" + c.rsplit("::", 1)[-1] for c in inner if "parse_from_str" in c or "NaiveDate" in c or "DateTime" in c})
+        if datey: rep.bad("R17.10", "override-value-reinterpreted:" + x.rsplit("::", 1)[-1], "the value parser %s of a VCS override flag reads its argument through %s before (or instead of) taking it as a number: a Unix timestamp whose digits look like a date (20240315 = 1970-08-23) is resolved to a different instant" % (x.rsplit("::", 1)[-1], datey[:3]), g_.where())
+        else: rep.undecided("R17.10", "override-value-parser:" + x.rsplit("::", 1)[-1], "a custom value parser on a VCS override flag whose effect is not evaluated", g_.where())
+    if not custom: rep.ok("R17.10", "the VCS override flags use clap's built-in parsers (numbers are taken as written)", nontrivial_key="plainparse")
     # ---- R17.8 which instant: the commit time and the tag time are kept apart --------------------------------------------------------
     def field_reads(g, op, depth=0, seen=None):
         """names of struct fields the value of `op` is read from (through Some(..) wrappers, copies and plumbing calls)"""
@@ -292,6 +307,20 @@ def check(F, rep, tier):
             else: rep.ok("R17.8", "%s: %s is not filled from the other instant" % (p_.rsplit("::", 1)[-1], nm), sample=site, nontrivial_key="ts%s%s%d" % (p_, nm, bi))
     rep.floor("R17.8", "writes of bumped_timestamp / last_timestamp", nts, 6)
     return core.finish(rep, explanation=EXPL, assumptions=ASSUME, trusted=TRUST)
+
+def naive_datetime_rule(F, rep, rule):
+    """patterns are formatted on the UTC date-time itself, not on a naive copy (chrono fails to format %Z / %z / %:z / %+ on a
+    NaiveDateTime; that error is swallowed by the component resolver, so a validated ts("%Y%Z") component would render as nothing)"""
+    naive = []
+    for p_, g_ in F.fns.items():
+        if "::tests" in p_ or not (p_.startswith("crate::version::zerv::utils::timestamp") or p_.startswith("crate::cli::utils::template::functions") or p_.startswith("crate::version::zerv::components")): continue
+        for bi, t in g_.calls():
+            c = mir.callee(t) or ""
+            if c.endswith("::naive_utc") or c.endswith("::naive_local") or c.endswith("::date_naive") or "NaiveDateTime" in (t[1].get("full") or "") and c.endswith("::format"):
+                naive.append((g_, bi, c))
+    for g_, bi, c in naive:
+        rep.bad(rule, "naive-datetime:" + g_.path.rsplit("::", 1)[-1], "%s formats a naive date-time (%s): zone specifiers (%%Z, %%z, %%:z, %%+) fail on it and the failure is swallowed, so a validated ts(\"...%%Z\") component renders as nothing" % (g_.path.rsplit("::", 1)[-1], c.rsplit("::", 1)[-1]), "%s bb%d line %s" % (g_.where(), bi, g_.blocks[bi]["line"]))
+    if not naive: rep.ok(rule, "timestamp patterns are formatted on DateTime<Utc> values (no naive conversion)", nontrivial_key="nonaive")
 
 EXPL = ("Structural clauses of C17: the accepted list is the 16 documented names; each documented pattern has its own arm in resolve_timestamp (none falls through to the literal arm) and the chrono format constant that reaches "
         "DateTime::format in that arm means, under a semantic strftime map (field + padding), what the statement requires (MM/DD/HH/mm/SS/WW unpadded, 0-forms and YY two digits, compact forms fixed-width); the formatting helper formats its "
